@@ -24,6 +24,7 @@ cargo build --offline --bins > /dev/null 2>&1
 echo "demo rc with patch=$D1 without=$D0"
 # our checks
 cd /verif
+export VERIF_EVIDENCE_DIR=/tmp/verif-experiment-evidence
 git -C /repo apply $OUT/patch.diff || { echo "PATCH DOES NOT APPLY TO /repo"; exit 3; }
 RES=""
 for c in $CHECKS; do
